@@ -295,6 +295,9 @@ struct UserRxSharedLocked {
     vsock_closed: bool,
     queue: MsgQueue,
     dispatcher_waker: Option<Waker>,
+    // Always registered, used only when the reader is dropped: the dispatcher must notice that
+    // even if it doesn't need to hear about reads.
+    dispatcher_waker_on_drop: Option<Waker>,
     reader_waker: Option<Waker>,
 }
 
@@ -306,7 +309,8 @@ impl Drop for UtpStreamReadHalf {
     fn drop(&mut self) {
         let mut g = self.shared.locked.lock();
         g.reader_dropped = true;
-        let waker = g.dispatcher_waker.take();
+        let waker_on_drop = g.dispatcher_waker_on_drop.take();
+        let waker = g.dispatcher_waker.take().or(waker_on_drop);
         drop(g);
         if let Some(waker) = waker {
             waker.wake();
@@ -342,6 +346,7 @@ impl UserRx {
         let shared = Arc::new(UserRxShared {
             locked: Mutex::new(UserRxSharedLocked {
                 dispatcher_waker: None,
+                dispatcher_waker_on_drop: None,
                 reader_waker: None,
                 queue: MsgQueue::new(max_rx_bytes.get()),
                 reader_dropped: false,
@@ -404,6 +409,7 @@ impl UserRx {
         let parked_bytes: usize = self.ooq.stored_bytes();
         let mut remaining_rx_window = {
             let mut g = self.shared.locked.lock();
+            update_optional_waker(&mut g.dispatcher_waker_on_drop, cx);
             let remaining_window = g.queue.window();
             if remaining_window.saturating_sub(parked_bytes) < self.max_incoming_payload.get() {
                 update_optional_waker(&mut g.dispatcher_waker, cx);
